@@ -61,6 +61,8 @@ def floors(tier):
         "type:rush_promotion": 300 * k,
         "resume_without_checkpointing": 300 * k,
         "target_checked_with_max_resource_attr": 1000 * k,
+        "second_experiment_interleaved_in_same_process": 200 * k,
+        "second_experiment_events": 10000 * k,
     }
 
 
@@ -82,8 +84,27 @@ def expand(spec):
     p["checkpointing"] = rng.random() < 0.6
     if p["type"] == "rush_promotion":
         p["rush_candidates"] = rng.choice([0, 0, 1, 2, 3])
+    # a second, unrelated promotion-type experiment in the same process, its events interleaved with this one's
+    p["bystander"] = rng.random() < 0.2
     p.update({k: v for k, v in spec.items() if k != "seed"})
     return p
+
+
+def _bystander(spec):
+    """Second experiment (own scheduler, space, curves, trial ids from 0), unobserved."""
+    q = expand({"seed": spec["seed"] * 31 + 977, "bystander": False})
+    if q["type"] in ("cost_promotion", "rush_promotion"):
+        q["type"] = "promotion"
+    space = gen.build_space(q["space"])
+    bp = dict(q)
+    if q["use_mra"]:
+        space["epochs"] = q["max_t"]
+        bp["max_resource_attr"] = "epochs"
+    sched = gen.build_hyperband(space, bp, seed=(spec["seed"] + 11) % (2**31))
+    vp = {"n_workers": q["n_workers"], "max_t": q["max_t"], "metric": "loss", "resource_attr": "epoch", "policy": q["policy"],
+          "seed": spec["seed"] + 12, "max_trials": q["max_trials"], "max_events": q["max_events"],
+          "max_resource_attr": "epochs" if q["use_mra"] else None, "checkpointing": q["checkpointing"]}
+    return VTuner(Port(sched), vp, gen.Curves(q["curves"], spec["seed"] + 13, q["max_t"]))
 
 
 class Monitor:
@@ -373,7 +394,16 @@ def run_case(spec):
         "max_resource_attr": "epochs" if p["use_mra"] else None, "checkpointing": p["checkpointing"],
     }
     with rung_contract(o):
-        vt = CfgTrackingVTuner(Port(sched), vp, curves, extra_fn=extra_fn, monitors=[mon]).run()
+        vt = CfgTrackingVTuner(Port(sched), vp, curves, extra_fn=extra_fn, monitors=[mon])
+        if p.get("bystander"):
+            try:
+                vt.bystanders.append(_bystander(spec))
+                o.count("second_experiment_interleaved_in_same_process")
+            except Exception:  # noqa: BLE001
+                o.count("bystander_not_built")
+        vt.run()
+        if vt.bystanders:
+            o.count("second_experiment_events", vt.bystanders[0].n_events)
     if vt.raised:
         mech = f"raised:{vt.raised[0]}:{vt.raised[1]}:{p['type']}"
         if len(ref_levels) == 1:
